@@ -1,7 +1,7 @@
 (* Proofs about Model/Liquidity.v: consequences of the escrow invariant for C07 / C04 - nothing of a
    terminated order remains in escrow, the escrow covers the remaining offer coins, an order outside its
    placement batch can be cancelled, market-making cancel / replace cancels every indexed order. *)
-From Comdex Require Import Lib.Base Lib.DecArith Lib.DecFacts Model.Liquidity Proofs.LiquidityProofs
+From Comdex Require Import Lib.Base Lib.DecArith Lib.DecFacts Lib.DecFacts2 Model.Liquidity Proofs.LiquidityProofs
   Proofs.LiquiditySweep Proofs.LiquidityProofs2 Proofs.LiquidityEffects Proofs.LiquidityLists Proofs.LiquidityEscrow
   Proofs.LiquidityReach Proofs.LiquidityMMCancel.
 From Coq Require Import ZifyBool Lia.
@@ -240,4 +240,33 @@ Proof.
                   offer offer 0 price (m_amt m) (m_amt m) (p_batch pr) (now + m_life m) 1, new_ghost (offer + fee)).
   split; [|split; [|split; [|split; [|exact Hl]]]]; try reflexivity.
   apply in_ins_self.
+Qed.
+
+(* the fee reserve is the floor of offer * rate *)
+Lemma fee_amt_floor rate x : 0 <= rate -> 0 <= x -> fee_amt rate x = (x * rate) / P18.
+Proof.
+  intros Hr Hx. unfold fee_amt. rewrite dmul_trunc_int_exact. unfold dtrunc_int. pose proof P18_pos.
+  apply Z.quot_div_nonneg; nia.
+Qed.
+
+(* one fill: the bookkeeping of ApplyMatchResult and the payout of the received demand coin *)
+Theorem fill_pays s app pair id matched paid recv s' :
+  apply_fill s app pair (id, matched, paid, recv) = Ok s' ->
+  exists o g s3, find_order (app, pair, id) (orders s) = Some (o, g) /\ 0 <= paid <= o_rem o /\ 0 <= recv /\
+    (if o_open o - matched =? 0
+     then finish_entry (fill_book s (app, pair, id) o g matched paid recv)
+                       (set_fill o matched paid recv (o_status o), fill_ghost g matched paid recv) 4 = Ok s3
+     else s3 = mark_status (fill_book s (app, pair, id) o g matched paid recv) (app, pair, id)
+                           (set_fill o matched paid recv (o_status o)) (fill_ghost g matched paid recv) 3) /\
+    g_recv (fill_ghost g matched paid recv) = g_recv g + recv /\
+    forall c d, led s' c d = led s3 c d + at_ (User (o_owner o)) (o_ddenom o) c d recv - at_ (Escrow app pair) (o_ddenom o) c d recv.
+Proof.
+  unfold apply_fill, obind. intros H.
+  destruct (find_order (app, pair, id) (orders s)) as [[o g]|] eqn:Ef; [|discriminate].
+  destruct (negb (is_live (o_status o))); [discriminate|].
+  destruct ((o_rem o - paid <? 0) || (paid <? 0) || (recv <? 0)) eqn:Eg; [discriminate|].
+  match type of H with match ?x with _ => _ end = _ => destruct x as [s3| |] eqn:E3; try discriminate end.
+  destruct (esc_out_eff _ _ _ _ _ _ _ H) as (l & _ & Hl & ->).
+  exists o, g, s3. split; [reflexivity|]. split; [lia|]. split; [lia|]. split; [|split; [reflexivity|exact Hl]].
+  cbn [set_fill o_open] in E3. destruct (o_open o - matched =? 0); [exact E3|]. injection E3 as <-. reflexivity.
 Qed.
